@@ -19,7 +19,7 @@ CHECKS = {
              'deterministic scheduler, their observable event traces are validated against the model by the Lean '
              'driver (validator soundness proved), and a monitor evaluates the property on each run.',
         note=E1 + "executor='process' only through the theorem (same fifo_stream code path) — OS schedule not controlled.",
-        ref='§5 C01', engine='E1-detsched+lean'),
+        ref='§5 C01', engine='E1-detsched+E4-processes(sampled)+lean'),
     'C03': dict(
         technique='Lean 4 proof (pull machine of nested generators = terminated-stream list semantics, by a denotation invariant + fuel monotonicity/totality; counting invariant for look-ahead; list lemmas for the operator laws) + differential runs of the real Stream against the compiled model',
         text='C03_pull_eq_sem / C03_exhaust_eq_sem / C03_pull_fuel_independent: for every program over map, filter, '
@@ -47,7 +47,7 @@ CHECKS = {
              'schedule; C05_fifo_first_failure / _source_failure / _raise_once / _clean give the ending. Tie and '
              'monitors (deadlock = exact state under the scheduler, leaked threads, ending) as for C01.',
         note=E1 + 'garbage-collection-triggered close is exercised as del + gc.collect(); process executors not scheduled.',
-        ref='§5 C05', engine='E1-detsched+lean'),
+        ref='§5 C05', engine='E1-detsched+E4-processes(sampled)+lean'),
     'C08': dict(
         technique='Lean 4 proof (counting invariant of the fifo_stream / Buffer LTS models) + schedule-controlled trace refinement',
         text='C08_fifo_lookahead: pulled - handed <= cap+3 in every reachable state, for every schedule, cap, conc, n; '
@@ -58,7 +58,7 @@ CHECKS = {
              'ParmapperAsync / AsyncParmapperAsync under E1 / E2); everything beyond that envelope is reported.',
         note=E1 + 'the pool\'s own concurrency limit is an assumption about the stdlib executor (start guard of the model). '
                   'PARTIAL for async worker functions (F35: limited by the hand-off capacity 2*concurrency+3 only).',
-        ref='§5 C08', engine='E1-detsched+lean'),
+        ref='§5 C08', engine='E1-detsched+E2-vloop+E4-processes(sampled)+lean'),
     'C09': dict(
         technique='Lean 4 proof (inductive invariants, counting argument, progress + decreasing measure over an LTS model of the batching worker) + schedule-controlled full-trace replay of the real Worker code through the model',
         text='Theorems C09_wellformed / C09_single / C09_partition / C09_deadline / C09_lone_served (+ output pairing) hold for '
@@ -214,7 +214,7 @@ CHECKS = {
              'on each run; a small sample with real worker processes is compared with `outs` too.',
         note=E1 + 'that the tree does come to rest (liveness) is not proved, only monitored; the ledger layer (uid minting, '
              'capacity, gather thread, timeouts) is the Ledger model of C06/C07; process servlets: OS schedule only sampled.',
-        ref='§5 C02', engine='E1-detsched+lean'),
+        ref='§5 C02', engine='E1-detsched+E4-processes(sampled)+lean'),
     'C04': dict(
         technique='Lean 4 proof (invariants of the servlet-node transition systems incl. call-argument and batch logs; membership '
                   'characterisation of the ensemble outcome relation) + schedule-controlled differential / trace-replay correspondence '
@@ -230,7 +230,7 @@ CHECKS = {
              'on an exception value, failed batch vs. the requests that shared it.',
         note=E1 + 'thread servlets only under the scheduler: the "traceback as text after a process boundary" clause is C15\'s '
              '(pickling model) plus a small real-process sample on every run.',
-        ref='§5 C04', engine='E1-detsched+lean'),
+        ref='§5 C04', engine='E1-detsched+E4-processes(sampled)+lean'),
     'C17': dict(
         technique='Lean 4 proof (inductive counting invariant, timing invariant, progress + decreasing measure over an LTS model of IterableQueue/ResponsiveQueue) + schedule-controlled trace refinement against the real code',
         text='C17_exactly_once (received + queued = put as multisets in every reachable state, per round, and received = put when '
@@ -270,7 +270,7 @@ CHECKS = {
              'multiprocessing.Connection framing (compared byte-exactly on samples). Assumed: the client registers a request id before '
              'its receiver processes the response to it (suspected window F17; monitored on every run, never exhibited; '
              'Legacy/MuxWindow.lean shows what would fail); pipe endpoints stay open while messages are in transit.',
-        ref='§5 C18', engine='E3-differential+E4-processes+lean'),
+        ref='§5 C18', engine='E3-differential+E2-vloop+E4-processes+lean'),
     'C12': dict(
         technique='Lean 4 proof (inductive invariant + progress + decreasing measure over an LTS model of the result pipe, collector thread, future and accessors; thread variant) + differential replay of real process/thread histories through the model',
         text='C12_resolved / C12_resolved_bound / C12_resolved_value (for every outcome, every signal at every child phase and every '
